@@ -1,5 +1,5 @@
 (* Source-level equivalences in the reference semantics (property C08). *)
-From Arrai Require Import Base.Val Spec.SetAlg Eval.Interp.
+From Arrai Require Import Base.Val Spec.SetAlg Eval.Interp Proofs.FuelP.
 
 (* let p = e1; e2   =   e1 -> \p e2   =   (\p e2)(e1) *)
 Theorem let_is_arrow fuel rho p e1 e2 :
@@ -54,4 +54,36 @@ Proof. cbn [eval evalF env_get]. unfold name_eqb.
   assert (E : name_cmp x x = Eq).
   { induction x as [|c x IH]; [reflexivity|]. simpl. rewrite Z.compare_refl. exact IH. }
   rewrite E. reflexivity.
+Qed.
+
+(* the three binding forms, at any fuel that answers, give the same answer *)
+Lemma arrow_is_call_always fuel rho p e1 e2 :
+  eval (S (S fuel)) rho (EArrow e1 (EFn p e2)) = eval (S (S fuel)) rho (ECall (EFn p e2) e1).
+Proof.
+  remember (S fuel) as f eqn:Ef. cbn [eval evalF]. subst f. cbn [eval evalF rbind].
+  destruct (evalF (eval fuel) (bind_pat fuel) rho e1); reflexivity.
+Qed.
+
+Definition binding_forms (p : pat) (e1 e2 : expr) : list expr :=
+  [ELet p e1 e2; EArrow e1 (EFn p e2); ECall (EFn p e2) e1].
+
+Lemma binding_forms_equal_at fuel rho p e1 e2 X Y :
+  In X (binding_forms p e1 e2) -> In Y (binding_forms p e1 e2) ->
+  eval (S (S fuel)) rho X = eval (S (S fuel)) rho Y.
+Proof.
+  pose proof (let_is_arrow fuel rho p e1 e2) as H1.
+  pose proof (arrow_is_call_always fuel rho p e1 e2) as H2.
+  unfold binding_forms. intros HX HY. cbn [In] in HX, HY.
+  destruct HX as [HX|[HX|[HX|[]]]], HY as [HY|[HY|[HY|[]]]]; subst; congruence.
+Qed.
+
+Theorem binding_forms_same_answer n m rho p e1 e2 X Y :
+  In X (binding_forms p e1 e2) -> In Y (binding_forms p e1 e2) ->
+  eval n rho X <> OutOfFuel -> eval m rho Y <> OutOfFuel -> eval n rho X = eval m rho Y.
+Proof.
+  intros HX HY Hn Hm. set (N := S (S (Nat.max n m))).
+  assert (Ln : (n <= N)%nat) by (unfold N; lia). assert (Lm : (m <= N)%nat) by (unfold N; lia).
+  destruct (eval_fuel_mono n N rho X Ln) as [E|E]; [contradiction|].
+  destruct (eval_fuel_mono m N rho Y Lm) as [E'|E']; [contradiction|].
+  rewrite E, E'. apply (binding_forms_equal_at _ rho p e1 e2); assumption.
 Qed.
